@@ -543,25 +543,38 @@ def _group_levels(case: Dict[str, Any]) -> Tuple["Expectation", List[Tuple[str, 
 RANK = {"H": 0, "I": 1, "N": 2}
 
 
+KIND_CLAUSE = {"H": "hybrid-groups-exact", "I": "interleaved-groups-exact", "N": "neighbouring-groups-exact"}
+
+
+def _materialised_groups(expectation: "Expectation") -> List[Tuple[str, Set[int]]]:
+    """The groups that get a candidate of their own (strongest kind first): hybrids, core-overlap
+    groups that are not exactly a hybrid, extent-overlap groups that are not exactly a
+    core-overlap group."""
+    groups: List[Tuple[str, Set[int]]] = [("H", must | may) for must, may in expectation.hybrids]
+    hybrid_sets = [members for _, members in groups]
+    groups += [("I", set(g)) for g in expectation.core_groups if set(g) not in hybrid_sets]
+    core_sets = [set(g) for g in expectation.core_groups]
+    groups += [("N", set(g)) for g in expectation.extent_groups if set(g) not in core_sets]
+    return groups
+
+
 def _is_promotion(clause: str, case: Dict[str, Any]) -> bool:
     """F1: a group of a weaker kind (interleaved / neighbouring) has more members than, but
     exactly the span of, a group of a stronger kind it contains.  The pinned code keys its
     de-duplication on coordinates only: it folds the extra members into the stronger candidate
-    (keeping that kind) instead of keeping both candidates."""
+    (keeping that kind) instead of keeping both candidates.  Affects the clause of the stronger
+    kind (extra members) and of the weaker kind (no candidate)."""
     clause = _plain(clause)
-    if clause not in ("hybrid-groups-exact", "interleaved-groups-exact", "neighbouring-groups-exact"):
+    if clause not in KIND_CLAUSE.values():
         return False
-    expectation, groups = _group_levels(case)
+    expectation, _ = _group_levels(case)
+    groups = _materialised_groups(expectation)
     for kind, members in groups:
         for other_kind, other in groups:
             if RANK[other_kind] < RANK[kind] and other < members and \
-                    _union(expectation.extents, other) == _union(expectation.extents, members):
-                if clause == "hybrid-groups-exact" and other_kind == "H":
-                    return True
-                if clause == "interleaved-groups-exact" and "I" in (kind, other_kind):
-                    return True
-                if clause == "neighbouring-groups-exact" and kind == "N":
-                    return True
+                    _union(expectation.extents, other) == _union(expectation.extents, members) and \
+                    clause in (KIND_CLAUSE[kind], KIND_CLAUSE[other_kind]):
+                return True
     return False
 
 
@@ -593,6 +606,46 @@ def _single_pass_merge_fails(groups: Sequence[Set[int]], min_start: Sequence[int
     return False
 
 
+def _hybrid_merge_fails(case: Dict[str, Any], min_start: Sequence[int]) -> bool:
+    """The sharing pairs in the order the pinned `_find_hybrids` produces them (protoclusters by
+    extent, then stably by core start/end; pairs i < j; the first/last pair once more), merged by
+    the single-pass model."""
+    shared = set(_declared_sharing(case))
+    if len(shared) < 3:
+        return False
+    length = case["L"]
+
+    def extent_key(index: int) -> Tuple[int, int, int]:
+        start, end = case["protos"][index][1]
+        if start >= end:
+            return (start - length, -(length - start + end), index)
+        return (start, -(end - start), index)
+
+    def core_key(index: int) -> Tuple[int, int]:
+        start, end = case["protos"][index][0]
+        return (0, length) if start >= end else (start, end)
+
+    order = sorted(sorted(range(len(case["protos"])), key=extent_key), key=core_key)
+    pairs = [{a, b} for position, a in enumerate(order) for b in order[position + 1:]
+             if (min(a, b), max(a, b)) in shared]
+    if (min(order[0], order[-1]), max(order[0], order[-1])) in shared:
+        pairs.append({order[0], order[-1]})
+    ordered = sorted((set(pair) for pair in pairs), key=lambda group: min(min_start[i] for i in group))
+    for index, first in enumerate(ordered[:-1]):
+        if not first:
+            continue
+        for second in ordered[index + 1:]:
+            if not first.isdisjoint(second):
+                first.update(second)
+                second.clear()
+    seen: Set[int] = set()
+    for group in ordered:
+        if seen & group:
+            return True
+        seen |= group
+    return False
+
+
 def _strong_nodes(expectation: "Expectation") -> List[Set[int]]:
     """The units the later passes work with: every core-overlap group (it becomes a hybrid or an
     interleaved candidate) and every remaining protocluster on its own."""
@@ -611,11 +664,12 @@ def _is_merge(clause: str, case: Dict[str, Any]) -> bool:
     expectation, _ = _group_levels(case)
     count = expectation.count
     min_start = [0 if spans_origin(extent) else extent[0] for _, extent in case["protos"]]
-    share = [set(pair) for pair in _declared_sharing(case)]
-    if len(share) >= 3 and _single_pass_merge_fails(share, min_start):
+    if _hybrid_merge_fails(case, min_start):
         return True
     if clause == "hybrid-groups-exact":
         return False
+    if not (case["circ"] and any(spans_origin(extent) for _, extent in case["protos"])):
+        return False      # on a line interval overlaps ordered by start merge correctly
     unit = {}
     for must, may in expectation.hybrids:
         for i in must:
@@ -674,6 +728,22 @@ def _pinned_span(arcs: Sequence[Sequence[int]], length: int) -> int:
     return arc_mask([pre_start, post_end], length)
 
 
+def _pinned_whole_record(arcs: Sequence[Sequence[int]], length: int) -> bool:
+    """True when the pinned connect_locations gives the one-part location [0:length) for these
+    chained arcs (a span that merely happens to cover every base stays a two-part location)."""
+    if not any(spans_origin(arc) for arc in arcs):
+        return min(a[0] for a in arcs) == 0 and max(a[1] for a in arcs) == length
+    pre_start, post_end = length, 0
+    for start, end in arcs:
+        if start >= end:
+            pre_start, post_end = min(pre_start, start), max(post_end, end)
+        elif start < length - end:
+            post_end = max(post_end, end)
+        else:
+            pre_start = min(pre_start, start)
+    return pre_start < post_end or pre_start == 0 or post_end == length
+
+
 def _over_covered(case: Dict[str, Any]) -> bool:
     """Ring; some chained set of extents containing an origin-spanning one for which the pinned
     connect_locations returns the whole record although the span is smaller."""
@@ -696,11 +766,38 @@ def _over_covered(case: Dict[str, Any]) -> bool:
     return False
 
 
+def _pinned_location(case: Dict[str, Any], members: Iterable[int]) -> int:
+    arcs = [case["protos"][i][1] for i in members]
+    if case["circ"] and any(spans_origin(arc) for arc in arcs):
+        return _pinned_span(arcs, case["L"])
+    return arc_mask([min(a[0] for a in arcs), max(a[1] for a in arcs)], case["L"])
+
+
 def _is_over_cover(clause: str, case: Dict[str, Any]) -> bool:
     """F4: a candidate on a ring is given the whole record as location although the span of its
-    members is smaller (connect_locations, see C06-F2); the inflated [0:L) location also collides
-    with other candidates in the coordinate-keyed de-duplication."""
-    return _plain(clause) in CLAUSES and _over_covered(case)
+    members is smaller (connect_locations, see C06-F2).  location-is-span-of-members and
+    singles-exact: some chained set of extents is inflated that way; kind clauses: the inflated
+    location of a weaker group coincides with the location of a stronger group it contains, which
+    triggers the coordinate-keyed folding of C05-F1 although the true spans differ."""
+    clause = _plain(clause)
+    if clause in ("location-is-span-of-members", "singles-exact"):
+        return _over_covered(case)
+    if clause not in KIND_CLAUSE.values() or not case["circ"]:
+        return False
+    expectation, _ = _group_levels(case)
+    groups = _materialised_groups(expectation)
+    for kind, members in groups:
+        true_span = _union(expectation.extents, members)
+        if _pinned_location(case, members) != true_span and len(members) < expectation.count and \
+                clause in (KIND_CLAUSE[kind], KIND_CLAUSE["N"]):
+            return True       # the inflated candidate "overlaps" protoclusters its members do not touch
+        for other_kind, other in groups:
+            if RANK[other_kind] < RANK[kind] and other < members and \
+                    clause in (KIND_CLAUSE[kind], KIND_CLAUSE[other_kind]) and \
+                    _pinned_location(case, other) == _pinned_location(case, members) and \
+                    _union(expectation.extents, other) != true_span:
+                return True
+    return False
 
 
 def _is_single_key(clause: str, case: Dict[str, Any]) -> bool:
@@ -711,14 +808,35 @@ def _is_single_key(clause: str, case: Dict[str, Any]) -> bool:
     if _plain(clause) != "singles-exact" or not case["circ"]:
         return False
     expectation, groups = _group_levels(case)
-    full = (1 << case["L"]) - 1
     absorbed = {i for group in expectation.core_groups for i in group}
     for index, (_, extent) in enumerate(case["protos"]):
         if index in absorbed or not spans_origin(extent):
             continue
         for _, members in groups:
-            if index in members and _union(expectation.extents, members) in (expectation.extents[index], full):
-                return True
+            if index not in members:
+                continue
+            if _union(expectation.extents, members) == expectation.extents[index]:
+                return True               # identical coordinates, yet the single is kept
+            if _pinned_whole_record([case["protos"][i][1] for i in members], case["L"]):
+                return True               # a [0:L) candidate: the single is dropped
+    return False
+
+
+def _is_cross_origin_subset(clause: str, case: Dict[str, Any]) -> bool:
+    """F6: ring; a chemical hybrid whose core span crosses the origin has at least two, but not
+    all, members with an origin-crossing core of their own, and some protocluster is in no hybrid:
+    `_find_cross_origin_interleaved` turns exactly those members into an extra interleaved
+    candidate (a subset of the hybrid)."""
+    if _plain(clause) != "interleaved-groups-exact" or not case["circ"]:
+        return False
+    expectation, _ = _group_levels(case)
+    in_hybrid = {i for must, may in expectation.hybrids for i in must | may}
+    if len(in_hybrid) == expectation.count:
+        return False                      # the pass only runs when some protocluster is left over
+    for must, may in expectation.hybrids:
+        crossing = [i for i in must | may if spans_origin(case["protos"][i][0])]
+        if 2 <= len(crossing) < len(must | may):
+            return True
     return False
 
 
@@ -728,4 +846,5 @@ FINDING_CLASSES = {
     "C05-F3": _is_bridging,
     "C05-F4": _is_over_cover,
     "C05-F5": _is_single_key,
+    "C05-F6": _is_cross_origin_subset,
 }
